@@ -108,6 +108,47 @@ Inductive bc := Zero | Neumann | Periodic.
 (* sqrt(np.finfo(float).eps) = 2^-26 exactly *)
 Definition sqrt_eps : Q := 1 # 67108864.
 
+(* the difference operator GMRF builds (cuqi.operator First/SecondOrderFiniteDifference as GMRF calls them, dx = 1), computed
+   by the model itself.  order 0: identity ("none").  1-d matrices by index; 2-d: vstack(kron(I, D), kron(D, I)). *)
+Definition qz (z : Z) : Q := inject_Z z.
+Definition mat_of (m n : nat) (f : nat -> nat -> Z) : Qmat := map (fun i => map (fun j => qz (f i j)) (seq 0 n)) (seq 0 m).
+Definition diff1d (b : bc) (order n : nat) : Qmat :=
+  match order with
+  | O => qid n
+  | S O =>
+      match b with
+      | Zero => mat_of (n + 1) n (fun i j => if (i =? j)%nat then 1 else if (i =? j + 1)%nat then (-1) else 0)%Z
+      | Periodic => mat_of (n + 1) n (fun i j =>
+                      if (i =? n)%nat && (j =? 0)%nat then 1                       (* Dmat[-1, 0] = 1 *)
+                      else if (i =? 0)%nat && (j =? n - 1)%nat then (-1)           (* Dmat[0, -1] = -1 *)
+                      else if (i =? j)%nat then 1 else if (i =? j + 1)%nat then (-1) else 0)%Z
+      | Neumann => mat_of (n - 1) n (fun i j => if (i =? j)%nat then (-1) else if (i + 1 =? j)%nat then 1 else 0)%Z
+      end
+  | _ =>
+      match b with
+      | Zero => mat_of (n + 2) n (fun i j => if (i =? j)%nat then (-1) else if (i =? j + 1)%nat then 2
+                                             else if (i =? j + 2)%nat then (-1) else 0)%Z
+      | Periodic => mat_of (n + 2) n (fun i j =>
+                      if (i =? 0)%nat && (j =? n - 2)%nat then (-1)                (* Dmat[0, -2] = -1 *)
+                      else if (i =? 0)%nat && (j =? n - 1)%nat then 2              (* Dmat[0:2, -1] = [2, -1] *)
+                      else if (i =? 1)%nat && (j =? n - 1)%nat then (-1)
+                      else if (i =? n)%nat && (j =? 0)%nat then (-1)               (* Dmat[-2, 0] = -1 *)
+                      else if (i =? n + 1)%nat && (j =? 0)%nat then 2              (* Dmat[-1, 0:2] = [2, -1] *)
+                      else if (i =? n + 1)%nat && (j =? 1)%nat then (-1)
+                      else if (i =? j)%nat then (-1) else if (i =? j + 1)%nat then 2
+                      else if (i =? j + 2)%nat then (-1) else 0)%Z
+      | Neumann => mat_of (n - 2) n (fun i j => if (i =? j)%nat then (-1) else if (i + 1 =? j)%nat then 2
+                                                else if (i + 2 =? j)%nat then (-1) else 0)%Z
+      end
+  end.
+(* Kronecker product of list matrices *)
+Definition kron (A B : Qmat) : Qmat :=
+  concat (map (fun ra => map (fun rb => concat (map (fun a => map (fun x => Qred (a * x)) rb) ra)) B) A).
+Definition diffop (b : bc) (order : nat) (two_d : bool) (n : nat) : Qmat :=    (* n = nodes per axis *)
+  if two_d then kron (qid n) (diff1d b order n) ++ kron (diff1d b order n) (qid n)    (* order 0: [I; I], so P = 2I *)
+  else diff1d b order n.
+Definition check_diffop (b : bc) (order : nat) (two_d : bool) (n : nat) (D : Qmat) : bool := qll_eqb (diffop b order two_d n) D.
+
 (* certificates: r = sqrt(prec); L = self._chol (lower, dense copy); P = self._prec_op matrix;
    D = self._diff_op matrix.  T is read off with scripted normals.
    zero   : s = mean + (1/r) spsolve(L^T, xi)                      L L^T = P        =>  r L^T T = I
@@ -256,8 +297,13 @@ Close Scope string_scope.
 
 (* Gaussian: green in either state of the proposed repair (the independent oracle of the harness reports the defect
    itself on the unrepaired tree) *)
+(* third state: fixes/C05_gaussian_exact_triangular_test.diff replaces the tolerance test by an exact one (atol = 0); the
+   triangular solve is then only applied to exactly lower-triangular matrices, i.e. the solver always inverts S itself *)
+Definition gauss_ok_exact (sparse : bool) (mean : Qvec) (S : Qmat) (off : Qvec) (T : Qmat) : bool :=
+  is_square S && ql_eqb off (bmean (length S) mean) && has_shape (length S) (length S) T &&
+  mat_close tol9 (qmm S T) (qid (length S)).
 Definition check_gauss (sparse : bool) (mean : Qvec) (S : Qmat) (off : Qvec) (T : Qmat) : bool :=
-  gauss_ok false sparse mean S off T || gauss_ok true sparse mean S off T.
+  gauss_ok false sparse mean S off T || gauss_ok true sparse mean S off T || gauss_ok_exact sparse mean S off T.
 Definition check_gauss_state (sparse : bool) (mean : Qvec) (S : Qmat) (off : Qvec) (T : Qmat) : nat :=
   (if gauss_ok false sparse mean S off T then 1 else 0) + (if gauss_ok true sparse mean S off T then 2 else 0).
 Definition check_stored (n : nat) (f : sp_form) (S : Qmat) : bool := qll_eqb (stored_sqrtprec n f) S.
